@@ -22,7 +22,7 @@ func init() {
 		NotDecided: "that finger tables are actually repaired at run time, and any end-to-end lookup result on a concrete ring.",
 		Run:        runC01})
 	register(&propDef{ID: "C02", Level: "other",
-		Decides:    "the pointer-update discipline convergence depends on: the interval tests in Notify and stabilize select the sets the protocol requires (all order types); LocalNode.predecessor / successors / fingers[k].node are written only by the enumerated functions and only with their mutex write-held; stabilize notifies the new head on every path where the list was refreshed and the node is not leaving; Notify adopts a candidate only by compare-and-set against the snapshot it decided on.",
+		Decides:    "the pointer-update discipline convergence depends on: the interval tests in Notify and stabilize select the sets the protocol requires (all order types); LocalNode.predecessor / successors / fingers[k].node are written only by the enumerated functions and only with their mutex write-held; stabilize notifies the new head on every path where the list was refreshed and the node is not leaving; Notify adopts a candidate only by compare-and-set against the snapshot it decided on (checkPredecessor likewise clears only the predecessor it probed); every fix-finger round calls fixK(k) for every k in 1..MaxFingerEntries with no early exit.",
 		NotDecided: "convergence itself (a liveness property over schedules).",
 		Run:        runC02})
 	register(&propDef{ID: "C05", Level: "other",
@@ -50,6 +50,8 @@ func init() {
 		mutation{"notify-closed-interval", "chord/local_chord.go", "chord.Between(predecessorSnapshot.ID(), predecessor.ID(), n.ID(), false)", "chord.Between(predecessorSnapshot.ID(), predecessor.ID(), n.ID(), true)", "interval"},
 		mutation{"stabilize-interval-swapped", "chord/local_tasks.go", "chord.Between(n.ID(), newSucc.ID(), head.ID(), false)", "chord.Between(head.ID(), newSucc.ID(), n.ID(), false)", "interval"},
 		mutation{"pred-write-under-rlock", "chord/local_tasks.go", "		n.predecessorMu.Lock()\n		if n.predecessor == pre {", "		n.predecessorMu.RLock()\n		if n.predecessor == pre {", "guarded-write"},
+		mutation{"fix-finger-stops-at-self", "chord/local_tasks.go", "		if changed {\n			fixed = append(fixed, k)\n		}\n	}", "		if changed {\n			fixed = append(fixed, k)\n		} else if k > 1 {\n			break\n		}\n	}", "finger-coverage"},
+		mutation{"fix-finger-skips-on-error-before-fix", "chord/local_tasks.go", "		changed, err := n.fixK(k)\n		if err != nil {\n			continue\n		}", "		if n.checkNodeState(false) != nil {\n			continue\n		}\n		changed, err := n.fixK(k)\n		if err != nil {\n			continue\n		}", "finger-coverage"},
 		mutation{"check-predecessor-without-cas", "chord/local_tasks.go", "		if n.predecessor == pre {\n			n.predecessor = nil\n			n.logger.Info(\"Discovered dead predecessor\",\n				zap.Object(\"old\", pre.Identity()),\n				zap.String(\"new\", \"nil\"),\n			)\n		}", "		n.predecessor = nil\n		n.logger.Info(\"Discovered dead predecessor\",\n			zap.Object(\"old\", pre.Identity()),\n			zap.String(\"new\", \"nil\"),\n		)", "snapshot-cas"},
 		mutation{"notify-surrogate-cas-outside-lock", "chord/local_chord.go", "		n.surrogateMu.Lock()\n		if surrogateSnapshot == n.surrogate {", "		unchanged := surrogateSnapshot == n.surrogate\n		n.surrogateMu.Lock()\n		if unchanged {", "snapshot-cas"},
 		mutation{"notify-without-cas", "chord/local_chord.go", "		if predecessorSnapshot == n.predecessor {\n			n.predecessor = candidatePredecessor\n		}", "		n.predecessor = candidatePredecessor", "notify-cas"},
@@ -481,6 +483,7 @@ func runC02(c *Ctx) {
 	}
 	c.Floor("Notify predecessor writes", ncas, 1)
 	snapshotCASRule(c)
+	fingerCoverageRule(c)
 }
 
 func isLenCmp(f *Fn, e ast.Expr, op token.Token, val string) bool {
@@ -606,18 +609,41 @@ func runC05(c *Ctx) {
 			_ = call
 		}
 	}
-	for _, call := range kvm.Calls(false, func(call *ast.CallExpr) bool {
+	nh := 0
+	for _, call := range kvm.Calls(true, func(call *ast.CallExpr) bool {
 		id, ok := call.Fun.(*ast.Ident)
 		return ok && kvm.paramIndex(kvm.Info.ObjectOf(id)) == 3
 	}) {
 		if len(call.Args) != 4 {
 			continue
 		}
-		tgt := kvm.Prov(call.Args[1])
-		facts := kvm.FactsAt(call)
+		nh++
+		g := kvm.enclosing(call)
+		tgt := g.Prov(call.Args[1])
+		facts := g.FactsAt(call)
+		underS1 := func(fs *FactSet) bool {
+			return s1 != nil && fs.Has(func(fa *Fact) bool { return fa.Kind == FTrue && fa.Call == s1.call })
+		}
 		switch tgt {
 		case "param#1.surrogate":
-			c.Ob("ownership-consequence", "kvMiddleware#forward-to-surrogate", call.Pos(), s1 != nil && facts.Has(func(fa *Fact) bool { return fa.Kind == FTrue && fa.Call == s1.call }), "requests are forwarded to the surrogate only when id in (self, surrogate]")
+			ok := underS1(facts)
+			if v := g.varOf(call.Args[1]); !ok && v != nil {
+				// the target was picked inside the locked section and the call happens
+				// after it: every assignment of the surrogate to the variable sits under
+				// the test, and the call runs only when one was made
+				defs := g.defsOf(v)
+				ok = len(defs) > 0
+				for _, d := range defs {
+					if d.rhs == nil || !underS1(kvm.enclosing(d.rhs).FactsAt(d.rhs)) {
+						ok = false
+					}
+				}
+				ok = ok && facts.Cmp(func(e, tag ast.Expr, truth bool, fa *Fact) bool {
+					be, isBin := e.(*ast.BinaryExpr)
+					return isBin && tag == nil && g.varOf(be.X) == v && isNilIdent(g.Info, be.Y) && (be.Op == token.NEQ && truth || be.Op == token.EQL && !truth)
+				})
+			}
+			c.Ob("ownership-consequence", "kvMiddleware#forward-to-surrogate", call.Pos(), ok, "requests are forwarded to the surrogate only when id in (self, surrogate]")
 		case "param#1.kv":
 			if o := kvm.ObjOf(call.Args[2]); o != nil && o.Name() == "targetReplication" {
 				continue // replication bypass: the sender already did the ownership checks (C04 lists it)
@@ -632,6 +658,7 @@ func runC05(c *Ctx) {
 			c.Ob("ownership-consequence", "kvMiddleware#local-after-range-test", call.Pos(), okB, "the local store is used only when the id was not outside (predecessor, self]")
 		}
 	}
+	c.Floor("kvMiddleware handler invocations", nh, 4)
 }
 
 // ---------------------------------------------------------------------------------------
@@ -1091,4 +1118,93 @@ func snapshotCASRule(c *Ctx) {
 		}
 	}
 	c.Floor("maintenance pointer writes", n, 4)
+}
+
+// fingerCoverageRule: every fix-finger round refreshes every entry. The round is a loop
+// over k = 1..MaxFingerEntries whose body calls fixK(k) before anything else can leave the
+// iteration, and nothing leaves the loop early: an entry that is skipped keeps pointing at
+// whatever it pointed to - after a leave, at a node that is gone (C02 asks every finger to
+// end up at the true owner).
+func fingerCoverageRule(c *Ctx) {
+	ff := chordFn(c, "LocalNode", "fixFinger")
+	var loop *ast.ForStmt
+	ast.Inspect(ff.Body, func(n ast.Node) bool {
+		if fl, ok := n.(*ast.ForStmt); ok && loop == nil {
+			loop = fl
+		}
+		return loop == nil
+	})
+	if loop == nil {
+		c.Ob("finger-coverage", "fixFinger#loop", ff.Decl.Pos(), false, "no loop over the finger entries found")
+		return
+	}
+	okBounds := false
+	var loopVar *types.Var
+	if init, ok := loop.Init.(*ast.AssignStmt); ok && len(init.Lhs) == 1 && len(init.Rhs) == 1 {
+		loopVar = ff.varOf(init.Lhs[0])
+		iv, _ := ff.ConstVal(init.Rhs[0])
+		if cond, ok := loop.Cond.(*ast.BinaryExpr); ok && ff.varOf(cond.X) == loopVar && loopVar != nil {
+			cv, _ := ff.ConstVal(cond.Y)
+			post, _ := loop.Post.(*ast.IncDecStmt)
+			okBounds = iv == "1" && post != nil && post.Tok == token.INC && ff.varOf(post.X) == loopVar &&
+				((cond.Op == token.LEQ && cv == "48") || (cond.Op == token.LSS && cv == "49"))
+		}
+	}
+	c.Ob("finger-coverage", "fixFinger#visits-1..MaxFingerEntries", loop.Pos(), okBounds, "the round walks k = 1, 2, ..., MaxFingerEntries")
+	// fixK(k) opens the iteration
+	okFirst := false
+	if len(loop.Body.List) > 0 {
+		ast.Inspect(loop.Body.List[0], func(n ast.Node) bool {
+			if call, ok := n.(*ast.CallExpr); ok && ff.IsCall(call, "chord.LocalNode.fixK") && len(call.Args) == 1 && ff.varOf(call.Args[0]) == loopVar && loopVar != nil {
+				okFirst = true
+			}
+			return true
+		})
+	}
+	c.Ob("finger-coverage", "fixFinger#every-iteration-fixes-k", loop.Body.Pos(), okFirst, "each iteration starts by calling fixK(k) with the loop variable")
+	// nothing leaves the loop early
+	var early []string
+	var scan func(n ast.Node, breakable int)
+	scan = func(n ast.Node, breakable int) {
+		ast.Inspect(n, func(m ast.Node) bool {
+			switch x := m.(type) {
+			case *ast.FuncLit:
+				return false
+			case *ast.ForStmt, *ast.RangeStmt, *ast.SwitchStmt, *ast.TypeSwitchStmt, *ast.SelectStmt:
+				if m != n {
+					scan(m, breakable+1)
+					return false
+				}
+			case *ast.ReturnStmt:
+				early = append(early, "return at "+c.pos(x.Pos()))
+			case *ast.BranchStmt:
+				if x.Tok == token.GOTO || (x.Tok == token.BREAK && (breakable == 0 || x.Label != nil)) {
+					early = append(early, x.Tok.String()+" at "+c.pos(x.Pos()))
+				}
+			case *ast.CallExpr:
+				if id, ok := x.Fun.(*ast.Ident); ok && id.Name == "panic" {
+					early = append(early, "panic at "+c.pos(x.Pos()))
+				}
+			}
+			return true
+		})
+	}
+	scan(loop.Body, 0)
+	loopVarWritten := false
+	ast.Inspect(loop.Body, func(m ast.Node) bool {
+		switch x := m.(type) {
+		case *ast.AssignStmt:
+			for _, l := range x.Lhs {
+				if loopVar != nil && ff.varOf(l) == loopVar {
+					loopVarWritten = true
+				}
+			}
+		case *ast.IncDecStmt:
+			if loopVar != nil && ff.varOf(x.X) == loopVar {
+				loopVarWritten = true
+			}
+		}
+		return true
+	})
+	c.Ob("finger-coverage", "fixFinger#no-early-exit-from-the-round", loop.Pos(), len(early) == 0 && !loopVarWritten, "no break / return / goto leaves the round before the last entry and the body does not move k: every entry is refreshed every round; found: "+strings.Join(early, ", "))
 }
